@@ -8,7 +8,7 @@ def impl(case):
     from harness import cls
     if "steps" in case:
         return {"stages": cls.classify_history(case["gens"], case["steps"], case.get("orders"))}
-    out, _, _ = cls.classify(case["gens"], record=case.get("record", False))
+    out, _, _ = cls.classify(case["gens"], record=case.get("record", False), trace=not case.get("record", False))
     return out
 
 
@@ -63,7 +63,13 @@ def judge(ck, cases, res, ans):
             names = {"shape": "some canonical graph is not a star of paths with at most one long leg", "acct": "distinct inputs != vertices + dependents",
                      "deps": "a reported dependent is not in the closure of the canonical vertices", "closure": "canonical vertices generate a different closure",
                      "comps": "not one canonical graph per connected component"}
-            ck.fail(None, "n=%d generators %s: %s" % (n, g, "; ".join(names.get(b, b) for b in bad)),
+            # the listed defect (a single leg that is the product of other single legs goes unnoticed, see C01) also misleads
+            # the later dependency tests of the same graph: only failures of closure / dependents / span can be its consequence
+            key = None
+            if all(b in ("deps", "closure") or b.startswith("span") for b in bad):
+                from harness.c01 import signature
+                key = signature(r["morphs"], r.get("attach_sites"))
+            ck.fail(key, "n=%d generators %s: %s" % (n, g, "; ".join(names.get(b, b) for b in bad)),
                     {"n": n, "gens": g, "morphs": r["morphs"], "verdict": a, "failed": bad, "kind": kind})
     return nt
 
